@@ -33,7 +33,9 @@ Inductive err :=
   | EIndex     (* IndexError *)
   | EValue     (* ValueError   (randrange(0), normalize of a zero vector) *)
   | EType      (* TypeError / AttributeError (operator applied to a foreign variable type) *)
-  | EArity.    (* PlatypusError("unexpected number of offspring ...") *)
+  | EArity     (* PlatypusError("unexpected number of offspring ...") *)
+  | EDomain.   (* a power with a negative base: builtin pow returns a COMPLEX number (TypeError at the next
+                  comparison), math.pow raises ValueError — the value leaves the reals *)
 
 Inductive res (A : Type) := Ok (a : A) | Err (e : err).
 Arguments Ok {A} _.
